@@ -23,11 +23,12 @@ var verifIllTyped = []string{
 	"if a {\n}", "for a {\n}", "if a == str {\n}", "a = a + str", "a = a + fl", "ok = a < str", "str = -str", "ok = !a", "fl = ^fl", "a = a << fl",
 	"a = s[str]", "a = s[1:2]", "a = arr[5]", "a = *a", "a = *p", "ch <- str", "str = <-ch", "a = <-a", "var x int = str\n_ = x", "x := nil\n_ = x",
 	"var rc <-chan int = ch\nrc <- 1", "var sc chan<- int = ch\na = <-sc", "str++", "ok++", "a += str", `str -= "x"`, "for range fl {\n}", "for i := range ok {\n_ = i\n}", "switch a {\ncase str:\n}", "switch a.(type) {\n}",
-	"_ = a.(int)", "_ = p.(T)", "z := T{X: str}\n_ = z", "z := T{1, nil, 3}\n_ = z", "z := T{Z: 1}\n_ = z", "z := []int{str}\n_ = z", "z := map[string]int{1: 1}\n_ = z", "z := [2]int{1, 2, 3}\n_ = z", "z := map[[]int]int{}\n_ = z", "return 1",
+	"_ = a.(int)", "_ = p.(T)", "z := T{X: str}\n_ = z", "z := T{1, nil, 3}\n_ = z", "z := T{Z: 1}\n_ = z", "z := []int{str}\n_ = z", "z := map[string]int{1: 1}\n_ = z", "z := [2]int{1, 2, 3}\n_ = z", "return 1",
 	"defer a", "go str", "a = func() {}()", "var x T = p\n_ = x", "a = len(a)", "a = cap(m)", "s = append(s, str)", "s = append(a, 1)", "copy(s, m)", "delete(s, 1)",
 	"delete(m, a)", "a = int(str)", "str = string(fl)", "p = (*T)(pa)", "ok = p == t", "ok = t == t", "ok = s == s", "ok = f == f", "a = t", "t = T{}.X",
 	"a = p.X.Y", "a = s.X", "a = arr.len", "p.M = nil", "a = (1 + str)", `str = "a" + 1`, "fl = fl % 2.0", "a = a / str", "ok = ok && a", "ok = a || ok",
 	"pa = &s", "a = pa[str]", "e = e + 1", "a = e", "var x, y int = 1\n_, _ = x, y", "x, y := 1\n_, _ = x, y", "a, b = 1", "a = 1, 2", "f = h", "f = func(x int) int { return str }",
+	"n := \"s\"\nn, err := g(1)\n_, _ = n, err", "n := 1.5\nn, ok2 := m[\"k\"]\n_, _ = n, ok2", "n := \"s\"\nn, more := <-ch\n_, _ = n, more", "n := 1\nn, isS := e.(string)\n_, _ = n, isS", "n := 1\nn, q := \"s\", 2\n_, _ = n, q",
 	"a = func() int { return }()", "ch = make(chan string)", "s = make([]int)", "m = make(map[string]int, str)", "p = new(int)", "a = new(int)", "pa = &[3]int{}", "s = []string{}", "m = map[string]string{}", "e.M()",
 }
 
@@ -85,6 +86,6 @@ func VerifH_C01_illtyped() {
 		vp.Note("front end cannot express this statement: " + string(perr.(verifErr)))
 		return
 	}
-	vp.Fact("stmtid", vp.Choose("stmt", n))
+	vp.Fact("floatintop", verifB2I(stmt == "fl = ^fl" || stmt == "fl = fl % 2.0"))
 	vp.Assert("C01.illtyped.rejected", class != vp.NoPanic)
 }
